@@ -257,6 +257,55 @@ def pad_sequences(prog: Program, rep: Report):
     rep.decide(once, "G9.pad-fields", fi, "append-once", "every field is appended exactly once per loop step",
                "a field can be skipped or appended twice: the batch layout no longer matches the dataset mode",
                line=fa.line(LN), clause="C18.3")
+    # ---- fields are collated independently of one another ---------------------------------------------------------------
+    rep.rule("G4.field-independent", "in the per-field loop no value that was computed from the data of one field (its definition "
+             "depends on the loop variable) survives into a later iteration and is used there for the collated field: every "
+             "local used by an appended value is either re-defined on every path of the current iteration before the append or "
+             "never defined from per-field data.  (A length, shape or maximum remembered from an earlier field would pad or "
+             "cut the later fields to that field's size.)")
+    ivar = nd.owner.target.id
+    acc = {c.func.value.id for _, c in apps if isinstance(c.func.value, ast.Name)}
+    def _mentions_loop_var(e, depth=6, seen_=None) -> bool:
+        """e is computed (through definitions inside the loop body) from the loop variable: per-field data."""
+        seen_ = seen_ if seen_ is not None else set()
+        for y in ast.walk(e):
+            if isinstance(y, ast.Name) and isinstance(y.ctx, ast.Load):
+                if y.id == ivar:
+                    return True
+                if depth > 0 and y.id not in seen_:
+                    seen_.add(y.id)
+                    for d2, var2, val2 in fa.stores():
+                        if var2 == y.id and d2 in body and val2 is not None and _mentions_loop_var(val2, depth - 1, seen_):
+                            return True
+        return False
+
+    carried = []
+    for n, c in apps:
+        used = {y.id for a_ in list(c.args) + [k.value for k in c.keywords] for y in ast.walk(a_)
+                if isinstance(y, ast.Name) and isinstance(y.ctx, ast.Load)}
+        # the appended value may be built from temporaries: follow them inside this iteration
+        work, seen_v = list(used), set()
+        while work:
+            v = work.pop()
+            if v in seen_v or v == ivar or v in acc:
+                continue
+            seen_v.add(v)
+            in_body = [d for d, var, val in fa.stores() if var == v and d in body]
+            if not in_body:
+                continue
+            for d in in_body:
+                val = cfg.def_value(d, v)
+                if val is not None:
+                    work += [y.id for y in ast.walk(val) if isinstance(y, ast.Name) and isinstance(y.ctx, ast.Load)]
+            all_defs = {d for d, var, val in fa.stores() if var == v}
+            survives = entry not in all_defs and cfg.reachable(entry, n, avoid=all_defs, within=body | {n})
+            per_field = any(_mentions_loop_var(cfg.def_value(d, v)) for d in in_body if cfg.def_value(d, v) is not None)
+            if survives and per_field:
+                carried.append((v, fa.line(in_body[0])))
+    rep.decide(not carried, "G4.field-independent", fi, "no-carried-field-data", "every per-field value is recomputed for every field",
+               "; ".join(f"'{v}' (defined from a field's data at line {ln}) can reach the collation of a later field without being "
+                         f"recomputed" for v, ln in sorted(set(carried))) + ": later fields are padded / cut with an earlier "
+               "field's measure", line=carried[0][1] if carried else fa.line(LN), clause="C18.3")
     field = lambda base: ("comp", "ListComp", ("sub", ("bound", "b"), I), ((("bound", "b"), B, ()),))
     for n, c in apps:
         t = fa.sym.term(c.args[0], n) if c.args else None
